@@ -346,7 +346,7 @@ def text_seps(text):
 # with indent '  ' + baseIndent '    '.  coq/props/C12.v lists "line breaks inside attribute values" as not covered.
 # With the switch off such values are generated for the DEPTH check only (sweep hosts); switch it on to see the
 # cosmetic failures.
-LINE_BREAKS_IN_ATTRIBUTE_VALUES_COSMETIC = False
+LINE_BREAKS_IN_ATTRIBUTE_VALUES_COSMETIC = True     # listed finding C12:cosmetic-line-break-inside-attribute-value
 
 
 def put_line_texts(rng, stmt, p_new=0.3, p_attr=None):
